@@ -6,7 +6,7 @@
    the file semantics (Spec/D4Sem.v). *)
 From Coq Require Import List ZArith Bool Lia Arith.
 From DD Require Import Model.Circuit Model.LexerD4 Model.LoadC2d Model.LoadD4 Spec.D4Sem
-  Proofs.LoadD4Graph Proofs.LoadD4Ops Proofs.LoadD4Pass2 Proofs.LoadD4Struct.
+  Proofs.Renum Proofs.LoadD4Graph Proofs.LoadD4Ops Proofs.LoadD4Pass2 Proofs.LoadD4Struct.
 Import ListNotations.
 Local Open Scope nat_scope.
 
@@ -22,6 +22,8 @@ Definition exp_node (g : sgraph) (y : nat) (lits : list Z) (tx : nat) : Prop :=
 Definition edge_rep (g : sgraph) (idx : list nat) (e : list Z * nat) (y : nat) : Prop :=
   exists tx, 1 <= snd e /\ nth_error idx (snd e - 1) = Some tx /\
     ((fst e = [] /\ y = tx) \/ (fst e <> [] /\ ~ In y idx /\ exp_node g y (fst e) tx)).
+
+Definition unl (e : list Z * nat) : bool := match fst e with [] => true | _ => false end.
 
 Record rep (P : Z -> Prop) (st : bool) (n0 : nat) (done : list d4token) (b : bstate) : Prop := {
   rp_core : core_ok P st (bs_ls b);
@@ -45,7 +47,10 @@ Record rep (P : Z -> Prop) (st : bool) (n0 : nat) (done : list d4token) (b : bst
   (* an and node that is not declared is the expansion of a labelled edge *)
   rp_exp : forall y, sg_label (ls_g (bs_ls b)) y = Some GAnd -> ~ In y (bs_idx b) ->
            exists i e tx, In e (d4_edges_from done i) /\ fst e <> [] /\ 1 <= snd e /\
-                          nth_error (bs_idx b) (snd e - 1) = Some tx /\ exp_node (ls_g (bs_ls b)) y (fst e) tx
+                          nth_error (bs_idx b) (snd e - 1) = Some tx /\ exp_node (ls_g (bs_ls b)) y (fst e) tx;
+  (* no duplicate children where the unlabelled edges of the node have distinct targets *)
+  rp_ndout : forall i x, nth_error (bs_idx b) i = Some x ->
+             NoDup (map snd (filter unl (d4_edges_from done (S i)))) -> NoDup (sg_out (ls_g (bs_ls b)) x)
 }.
 
 (* ---------- small facts ---------- *)
@@ -85,6 +90,12 @@ Proof.
   intros HR Hin. apply In_nth_error in Hin. destruct Hin as [i Hi].
   destruct (Forall2_nth_error _ _ _ _ _ (rp_decl _ _ _ _ _ HR) Hi) as [k [_ Hk]].
   unfold sg_alive. now rewrite Hk.
+Qed.
+
+Lemma NoDup_app_l {A} (a b : list A) : NoDup (a ++ b) -> NoDup a.
+Proof.
+  induction a as [|x a IH]; cbn [app]; intros H; [constructor|]. inversion H; subst.
+  constructor; [|now apply IH]. intros Hx. apply H2. apply in_or_app. now left.
 Qed.
 
 Lemma NoDup_app_snoc {A} (l : list A) x : NoDup l -> ~ In x l -> NoDup (l ++ [x]).
@@ -133,7 +144,7 @@ Lemma rep_decl n0 done b t k : rep P st n0 done b -> d4_kind t = [k] -> d4_token
 Proof.
   intros HR Hk Hmax Hne. unfold decl.
   destruct (add_node rc (tid_of_kind k) (ls_g (bs_ls b))) as [x g'] eqn:Ha.
-  pose proof HR as [[HI Hl Hp Hinj Hsr] Htri Hnd Hdecl Hedges Hrange Htot Hfirst Hempty Hclass Hocc Hlits Hexp].
+  pose proof HR as [[HI Hl Hp Hinj Hsr] Htri Hnd Hdecl Hedges Hrange Htot Hfirst Hempty Hclass Hocc Hlits Hexp Hndo].
   pose proof (add_node_ext rc _ _ _ _ [] HI Ha) as He.
   pose proof (add_node_fresh rc _ _ _ _ HI Ha) as Hfresh.
   pose proof (add_node_label_new rc _ _ _ _ HI Ha) as Hlx.
@@ -191,6 +202,15 @@ Proof.
       exists i, e, tx. split; [rewrite d4_edges_from_app; apply in_or_app; now left|]. split; [exact He2|]. split; [exact He3|].
       split; [rewrite nth_error_app1; [exact He4|apply nth_error_Some; congruence]|].
       apply (exp_node_ext _ _ [] _ _ _ He); [intros []|exact He5].
+  - intros i z Hi Hnd'. rewrite d4_edges_from_app in Hnd'. unfold d4_edges_from at 2 in Hnd'. cbn [flat_map] in Hnd'.
+    rewrite Hne, !app_nil_r in Hnd'.
+    destruct (Nat.lt_ge_cases i (length (bs_idx b))) as [Hlt|Hge].
+    + rewrite nth_error_app1 in Hi by exact Hlt.
+      assert (Hza : sg_alive (ls_g (bs_ls b)) z = true) by (apply (idx_alive _ _ _ _ _ _ HR); now apply nth_error_In in Hi).
+      rewrite (ex_out _ _ _ He z Hza) by (intros []). exact (Hndo i z Hi Hnd').
+    + rewrite nth_error_app2 in Hi by exact Hge.
+      destruct (i - length (bs_idx b)) as [|j] eqn:Ej; cbn [nth_error] in Hi; [|destruct j; discriminate].
+      injection Hi as <-. rewrite (add_node_no_out rc _ _ _ _ HI Ha). constructor.
 Qed.
 
 (* ---------- the literal leaves of an edge ---------- *)
@@ -436,7 +456,7 @@ Proof.
   destruct (ls_add_edge a c (bs_ls b)) as [s1|] eqn:E1; [|discriminate].
   destruct (resolve_weighted_edge rc a c fs s1) as [s2|] eqn:E2; [|discriminate].
   injection H as <-.
-  pose proof HR as [Hc Htri Hnd Hdecl Hedges Hrange Htot Hfirst Hempty Hclass Hocc Hlits Hexp].
+  pose proof HR as [Hc Htri Hnd Hdecl Hedges Hrange Htot Hfirst Hempty Hclass Hocc Hlits Hexp Hndo].
   assert (Hga : st = true -> gate_at (ls_g (bs_ls b)) a).
   { intros Hst. destruct (Hgf Hst) as [k [Hk Hkg]].
     unfold idx_get in Ea. destruct (0 <? from)%Z; [|discriminate].
@@ -511,6 +531,29 @@ Proof.
         -- cbn [fst snd]. split; [exact Hfs|]. split; [exact Ht1|]. split; [exact Htc|exact Hexpy].
       * apply Hold. rewrite <- (ex_label _ _ _ He z); [exact Hz|].
         exact (proj2 (out_alive _ _ _ (proj1 (co_inv _ _ _ Hc)) H1)).
+  - intros i x Hi Hnd'. rewrite d4_edges_from_app in Hnd'. unfold d4_edges_from at 2 in Hnd'.
+    cbn [flat_map d4_edge_of] in Hnd'. rewrite app_nil_r in Hnd'.
+    assert (Hxa : sg_alive (ls_g (bs_ls b)) x = true) by (apply (idx_alive _ _ _ _ _ _ HR); now apply nth_error_In in Hi).
+    destruct (Nat.eq_dec i p) as [->|Hip].
+    + assert (x = a) as -> by congruence.
+      rewrite Hfrom, Z.eqb_refl, filter_app, map_app in Hnd'. rewrite Hoa.
+      pose proof (Hndo p a Hi (NoDup_app_l _ _ Hnd')) as Hold.
+      constructor; [|exact Hold]. intros Hyin.
+      destruct Hy as [[-> ->]|[Hfs [Hyd _]]].
+      * destruct (Forall2_In_r _ _ _ _ (Hedges p a Hi) Hyin) as [e' [He' [tx [Hs1 [Htx Hcase]]]]].
+        destruct Hcase as [[Hnil ->]|[_ [Hnin _]]]; [|apply Hnin; now apply nth_error_In in Htc].
+        assert (Hsame : snd e' - 1 = Z.to_nat to - 1).
+        { apply (proj1 (NoDup_nth_error (bs_idx b)) Hnd); [apply nth_error_Some; congruence|congruence]. }
+        cbn [filter unl fst map snd app] in Hnd'. apply NoDup_remove_2 in Hnd'. apply Hnd'. rewrite app_nil_r.
+        apply in_map_iff. exists e'. split; [lia|]. apply filter_In. split; [now apply in_rev|].
+        unfold unl. now rewrite Hnil.
+      * rewrite (proj2 (out_alive _ _ _ (proj1 (co_inv _ _ _ Hc)) Hyin)) in Hyd. discriminate.
+    + assert (Hne : (from =? Z.of_nat (S i))%Z = false) by (apply Z.eqb_neq; lia).
+      rewrite Hne, app_nil_r in Hnd'.
+      assert (Hxne : x <> a).
+      { intros ->. apply Hip. apply (proj1 (NoDup_nth_error (bs_idx b)) Hnd i p); [|congruence].
+        apply nth_error_Some. congruence. }
+      rewrite (ex_out _ _ _ He x Hxa) by (intros [E|[]]; congruence). exact (Hndo i x Hi Hnd').
 Qed.
 
 (* ---------- the whole file ---------- *)
@@ -558,5 +601,6 @@ Proof.
   - intros f. cbn. split; [intros []|intros [from [to [fs [[] _]]]]].
   - intros k z Hk. discriminate.
   - intros y Hy. unfold sg_label in Hy. cbn in Hy. destruct y; discriminate.
+  - intros i x Hi. destruct i; discriminate.
 Qed.
 End Parse.
